@@ -18,13 +18,26 @@ impl PollSyscall for NothingReady {
 #[kani::stub(crate::net::EventLoops::wait_event, wait_event_stub)]
 fn c14_poll_timeout() {
     let t: c_int = kani::any();
-    kani::assume(t >= 0 && t <= 64);
+    kani::assume(t >= 0 && t <= 143); // 1+2+4+8+16*8 = 143 ms = MAX_CALLS rounds
     let nio: NioPollSyscall<NothingReady> = NioPollSyscall::default();
     let r = nio.poll(None, std::ptr::null_mut(), 0, t);
     kani::assert(r == 0, "C14.poll_times_out_with_0");
     kani::assert(unsafe { WAITED_NS } == (t as u128) * 1_000_000, "C14.poll_waits_exactly_the_requested_milliseconds");
     kani::assert(!unsafe { INNER_TIMEOUT_NONZERO }, "C14.poll_never_blocks_the_thread_in_the_kernel");
-    kani::cover!(t == 64 && unsafe { WAIT_CALLS } > 4, "C14.cover_poll_many_rounds");
+    kani::cover!(t == 143 && unsafe { WAIT_CALLS } == MAX_CALLS, "C14.cover_poll_many_rounds");
+}
+
+/// every timeout above the slice-loop bound, up to c_int::MAX: after MAX_CALLS rounds at most 1+2+4+8+16*8 = 143 ms
+/// have been requested, so a request of >= 144 ms cannot have returned yet
+#[kani::proof]
+#[kani::unwind(14)]
+#[kani::stub(crate::net::EventLoops::wait_event, wait_event_stub)]
+fn c14_poll_long() {
+    let t: c_int = kani::any();
+    kani::assume(t >= 144);
+    let nio: NioPollSyscall<NothingReady> = NioPollSyscall::default();
+    let _ = nio.poll(None, std::ptr::null_mut(), 0, t);
+    kani::assert(false, "C14.poll_of_144ms_or_more_does_not_return_within_143ms_of_waiting");
 }
 
 /// negative timeout = wait for ever: within the explored bound the call never returns while nothing is ready
